@@ -11,6 +11,12 @@ _SPECS = [
         dict(A=[[-0.02, 0.0, 0.01, 0.0], [0.0, 0.01, 0.02, 0.0],
                 [0.01, 0.02, 0.02, -0.01], [0.0, 0.0, -0.01, 0.03]],
              k=[-0.4, 0.5, 0.8, -1.0], phi=2.0)])),
+    dict(family="W", params=dict(modes=[
+        dict(A=[[0.03, 0.0, 0.0, 0.0], [0.0, 0.04, 0.01, -0.02],
+                [0.0, 0.01, -0.03, 0.012], [0.0, -0.02, 0.012, 0.02]],
+             k=[0.7, 1.1, -0.6, 0.9], phi=0.4)],
+        tshift=[dict(b=[0.05, -0.04, 0.03], k=[0.8, -0.5, 1.1], phi=0.7,
+                     w=1.2)])),
     dict(family="F", params=dict(modes=[
         dict(c=[0.05, -0.04, 0.03, 0.06], k=[0.6, 0.9, -0.8, 0.5], phi=1.0),
         dict(c=[-0.03, 0.05, 0.04, -0.02], k=[-0.9, 0.4, 0.7, 1.1],
